@@ -426,7 +426,8 @@ impl Check for C10 {
         }
         if t.chance(5) {
             // a minified bundle: the program starts beyond column 65535 of its first line
-            src = format!("var banner = \"{}\"; {}", "x".repeat(66_000), src);
+            // (exactly: column 65536 + c of this line and column c of the next one differ by 2^16)
+            src = format!("var banner = \"{}\"; {}", "x".repeat(65_519), src);
         }
         let (_, orig_json) = gen_original_map(&mut t, &src);
         let orig_text = orig_json.to_string();
@@ -682,8 +683,38 @@ impl Check for C10 {
         {
             let parsed = match ast::parse(&body) {
                 Ok(p) => p,
-                Err(_) => return Outcome::skip("output unparsable (C08)"),
+                Err(e) => {
+                    // an input that parses and an output that does not: some text of the program was altered
+                    if ast::parse(&src).is_ok() {
+                        return Outcome::fail("program-text-altered", format!("the input parses, the output body does not: {}", e.chars().take(120).collect::<String>()));
+                    }
+                    return Outcome::skip("output unparsable (C08)");
+                }
             };
+            // the look-alike literal keeps its value (compared with the INPUT: a defect that alters every such literal alters
+            // the one of the reference run too)
+            if case["lookalike"].is_string() {
+                fn find_decl<'a>(v: &'a Value, name: &str) -> Option<&'a Value> {
+                    match v {
+                        Value::Object(m) => {
+                            if m.get("type").and_then(|t| t.as_str()) == Some("VariableDeclarator") && m.get("id").and_then(|i| i.get("value")).and_then(|x| x.as_str()) == Some(name) {
+                                return m.get("init");
+                            }
+                            m.values().find_map(|x| find_decl(x, name))
+                        }
+                        Value::Array(a) => a.iter().find_map(|x| find_decl(x, name)),
+                        _ => None,
+                    }
+                }
+                if let Ok(pin) = ast::parse(&src) {
+                    let (nin, nout) = (crate::erase::normalize(&pin.tree), crate::erase::normalize(&parsed.tree));
+                    if let (Some(a), Some(b)) = (find_decl(&nin, "lookalike"), find_decl(&nout, "lookalike")) {
+                        if let Some(d) = crate::erase::first_diff(a, b, "") {
+                            return Outcome::fail("program-text-altered", format!("the literal that looks like the reference comment changed its value: {d}"));
+                        }
+                    }
+                }
+            }
             let leftover: Vec<&(u32, bool, String)> = parsed.comments.iter().filter(|c| c.2.trim_start().starts_with("# sourceMappingURL=")).collect();
             if cfg.comments && !leftover.is_empty() && kind != "two-comments" {
                 return Outcome::fail("stale-reference-comment", format!("the superseded reference comment is still in the body: {:?}", leftover[0].2.chars().take(60).collect::<String>()));
